@@ -156,10 +156,13 @@ class Inliner:
     @staticmethod
     def _trivial_ctor(g):
         """`fn new(a, b) -> Self { Self(a, b) }`: pure data, always read through"""
-        if g.n > 2 or g.live_calls or g.arg_count == 0:
+        if g.n > 2 or g.live_calls:
             return False
         aggs = [rv for bb, i, pl, rv in g.assigns() if rv['k'] == 'agg' and not pl['p'] and pl['l'] == 0]
         others = [rv for bb, i, pl, rv in g.assigns() if rv['k'] not in ('agg', 'use')]
+        if g.arg_count == 0:
+            # `fn ternary() -> Self { Self::TERNARY }`: a unit variant under a constructor name
+            return len(aggs) == 1 and not others and aggs[0].get('agg') == 'adt' and not aggs[0]['ops'] and len(list(g.assigns())) == 1
         return len(aggs) == 1 and not others and aggs[0].get('agg') == 'adt'
 
     def _copy_in(self, j, g, chain, origin_of_block, ret_to=None):
